@@ -342,6 +342,9 @@ func project(b *nodelite.Node, cat *catalogue, files []string) (kit.Ev, error) {
 
 var clock int64 = 1000
 
+// gcMu: plain collections share it, a collection with a racing access (package-global hook) owns it
+var gcMu sync.RWMutex
+
 type runner struct {
 	cat    *catalogue
 	src    *nodelite.Node // node A
@@ -498,6 +501,38 @@ func (r *runner) run(sc kit.Scenario, rng *rand.Rand) (evs []kit.Ev, err error) 
 			runs := 0
 			done := false
 			var gerr error
+			race, isRace := op["race"].(map[string]interface{})
+			if isRace {
+				gcMu.Lock()
+			} else {
+				gcMu.RLock()
+			}
+			if isRace {
+				// an access to a file between candidate selection and eviction of the first run
+				// (the hook is package-global: a racing collection excludes every other collection)
+				rf := r.cat.files[kit.Str(race, "f")]
+				fired := false
+				localstore.VerifSetGCIteratorDoneHook(func() {
+					if fired || rf == nil {
+						return
+					}
+					fired = true
+					switch kit.Str(race, "op") {
+					case "read":
+						b.Do(http.MethodGet, "/aurora/"+rf.Ref.String()+"/", nil, nil)
+					case "touch":
+						if addr, ok := r.cat.addrOf(rf.Data[0]); ok {
+							_, _ = b.NS.Get(sctx.SetRootHash(context.Background(), rf.Ref), storage.ModeGetRequest, addr)
+						}
+					case "pin":
+						b.Do(http.MethodPost, "/pins/"+rf.Ref.String(), nil, nil)
+					case "delete":
+						b.Do(http.MethodDelete, "/aurora/"+rf.Ref.String(), nil, nil)
+					}
+					b.Store.VerifWaitUpdateGC()
+				})
+				ev["race"] = map[string]interface{}{"op": kit.Str(race, "op"), "f": kit.Str(race, "f")}
+			}
 			for runs < 12 && !done {
 				_, done, gerr = b.Store.VerifCollectGarbage(uint64(capn))
 				runs++
@@ -506,6 +541,12 @@ func (r *runner) run(sc kit.Scenario, rng *rand.Rand) (evs []kit.Ev, err error) 
 				}
 			}
 			ev["runs"], ev["done"], ev["err"] = runs, done, gerr != nil
+			if isRace {
+				localstore.VerifSetGCIteratorDoneHook(nil)
+				gcMu.Unlock()
+			} else {
+				gcMu.RUnlock()
+			}
 		case "restart":
 			if e := b.Restart(); e != nil {
 				return nil, fmt.Errorf("restart: %w", e)
